@@ -186,6 +186,11 @@ def _scratch(kind):
         return _SCRATCH[kind]
 
 
+def scratch_dir(kind):
+    """a private scratch directory under /verif/build for files a check writes and reads back; removed at exit"""
+    return _scratch(kind)
+
+
 _COQ_HEADER = "From Coq Require Import List ZArith NArith QArith String Ascii Bool.\nImport ListNotations.\n"
 
 
